@@ -422,6 +422,49 @@ fn live_problem(w: &World, vmas: &[Vma], live: &[Live]) -> Option<String> {
     None
 }
 
+/// Open descriptors of this process that refer to test files: (descriptor, file id).
+fn test_file_fds(w: &World) -> Vec<(i32, usize)> {
+    let mut out = Vec::new();
+    if let Ok(dir) = std::fs::read_dir("/proc/self/fd") {
+        for e in dir.flatten() {
+            if let (Ok(fd), Ok(target)) = (e.file_name().to_string_lossy().parse::<i32>(), std::fs::read_link(e.path())) {
+                if let Some(fid) = w.paths.iter().position(|p| *p == target) {
+                    out.push((fd, fid));
+                }
+            }
+        }
+    }
+    out
+}
+
+/// "Fully released": a map may keep its file open while it is alive, but once it is dropped nothing of it
+/// stays behind. More descriptors to a test file than (live maps of that file + the harness's own writer).
+fn fd_problem(w: &World, live: &[Live]) -> Option<String> {
+    let fds = test_file_fds(w);
+    for fid in 0..w.paths.len() {
+        let have = fds.iter().filter(|(_, f)| *f == fid).count();
+        let allowed = live.iter().filter(|l| l.f.id() == fid).count() + w.writers[fid].is_some() as usize;
+        if have > allowed {
+            return Some(format!("{} open descriptors refer to {} but only {} live maps of it exist", have - w.writers[fid].is_some() as usize, w.names[fid], allowed - w.writers[fid].is_some() as usize));
+        }
+    }
+    None
+}
+
+/// Closes descriptors to test files that nobody owns any more (only called when no map is live).
+fn close_stale_fds(w: &World) -> u64 {
+    use std::os::unix::io::AsRawFd;
+    let own: Vec<i32> = w.writers.iter().flatten().map(|f| f.as_raw_fd()).collect();
+    let mut n = 0;
+    for (fd, _) in test_file_fds(w) {
+        if !own.contains(&fd) {
+            unsafe { libc::close(fd) };
+            n += 1;
+        }
+    }
+    n
+}
+
 //-----------------------------------------------------------------------------
 // Executing one history with the oracle after every action.
 
@@ -639,6 +682,10 @@ fn step(ctx: &mut Ctx, w: &mut World, live: &mut Vec<Live>, acts: &[Act], k: usi
                 ctx.require(sig, false, case, || json!({"observed": "no map is live but test files are mapped", "mappings": show(&vmas)}));
                 return false;
             }
+            if let Some(msg) = fd_problem(w, live) {
+                ctx.require(|| "MemoryMap.new[descriptors]".to_string(), false, case, || json!({"observed": msg}));
+                return false;
+            }
             true
         }
         Act::Drop(h) => {
@@ -682,6 +729,10 @@ fn step(ctx: &mut Ctx, w: &mut World, live: &mut Vec<Live>, acts: &[Act], k: usi
                     ctx.count("stale_mappings_cleaned", 1);
                     ctx.count("stale_bytes_cleaned", bytes);
                 }
+            }
+            if let Some(msg) = fd_problem(w, live) {
+                ctx.require(|| "MemoryMap.drop[descriptors]".to_string(), false, case, || json!({"observed": msg, "expected": "the dropped map keeps nothing of the file open"}));
+                return false;
             }
             if mode == Mode::Mutable && wrote {
                 // "changes made through a mutable map are in the file afterwards"
@@ -799,6 +850,10 @@ fn run_history(ctx: &mut Ctx, w: &mut World, acts: &[Act]) {
         ctx.count("stale_mappings_cleaned", 1);
         ctx.count("stale_bytes_cleaned", bytes);
         assert!(w.read_maps().is_empty(), "harness: could not clean the address space");
+    }
+    let closed = close_stale_fds(w);
+    if closed > 0 {
+        ctx.count("stale_descriptors_closed", closed);
     }
     w.restore();
 }
